@@ -16,6 +16,9 @@ enum Driver {
     Write,
     Vectored,
     WriteAll,
+    /// write! of a Display that hands every character to Formatter::write_char (what `{}` of a
+    /// `char`, or a non-ASCII fill character, does)
+    FmtChars,
     Fmt,
     FmtLiteral,
     FmtFailing,
@@ -62,6 +65,17 @@ impl std::fmt::Display for Failing<'_> {
     fn fmt(&self, f: &mut std::fmt::Formatter<'_>) -> std::fmt::Result {
         f.write_str(self.0)?;
         Err(std::fmt::Error)
+    }
+}
+
+struct Chars<'a>(&'a str);
+impl std::fmt::Display for Chars<'_> {
+    fn fmt(&self, f: &mut std::fmt::Formatter<'_>) -> std::fmt::Result {
+        use std::fmt::Write as _;
+        for ch in self.0.chars() {
+            f.write_char(ch)?;
+        }
+        Ok(())
     }
 }
 
@@ -241,12 +255,13 @@ fn check_history(input: &[u8], h: &Hist) -> Result<bool, String> {
                 }
             }
         }
-        Driver::Fmt | Driver::FmtLiteral | Driver::FmtFailing | Driver::FmtSloppy | Driver::FmtConst => {
+        Driver::Fmt | Driver::FmtLiteral | Driver::FmtFailing | Driver::FmtSloppy | Driver::FmtConst | Driver::FmtChars => {
             let text = std::str::from_utf8(input).map_err(|_| "fmt driver needs UTF-8 input (harness bug)".to_owned())?;
             let (a, b, cc) = split3(text, h.param);
             let calls_before = 0;
             let (res, effective, display_failed) = match h.driver {
                 Driver::Fmt => (write!(s, "{}{}{}", a, b, cc), text.to_owned(), false),
+                Driver::FmtChars => (write!(s, "{}{}", Chars(a), Chars(&format!("{b}{cc}"))), text.to_owned(), false),
                 Driver::FmtLiteral => (
                     write!(s, "{}\x1b[1mX\x1b[0m{}<{}", a, b, cc),
                     format!("{a}\x1b[1mX\x1b[0m{b}<{cc}"),
@@ -341,6 +356,8 @@ fn drivers_for(input: &[u8]) -> Vec<(Driver, u64, bool)> {
         v.push((Driver::Fmt, 7, true));
         v.push((Driver::FmtLiteral, 2, false));
         v.push((Driver::FmtFailing, 5, false));
+        v.push((Driver::FmtChars, 4, false));
+        v.push((Driver::FmtChars, 9, true));
         v.push((Driver::FmtSloppy, 3, false));
         v.push((Driver::FmtSloppy, 11, true));
     }
@@ -460,7 +477,7 @@ fn run(args: &Args, rep: &mut Report) {
                 gen::stream(cfg),
                 proptest::collection::vec(fault::resp_strategy(), 0..40),
                 if utf8 {
-                    prop_oneof![Just(Driver::Fmt), Just(Driver::FmtLiteral), Just(Driver::FmtFailing), Just(Driver::FmtSloppy), Just(Driver::Write), Just(Driver::WriteAll)].boxed()
+                    prop_oneof![Just(Driver::Fmt), Just(Driver::FmtChars), Just(Driver::FmtLiteral), Just(Driver::FmtFailing), Just(Driver::FmtSloppy), Just(Driver::Write), Just(Driver::WriteAll)].boxed()
                 } else {
                     prop_oneof![Just(Driver::Write), Just(Driver::Vectored), Just(Driver::WriteAll)].boxed()
                 },
@@ -470,7 +487,7 @@ fn run(args: &Args, rep: &mut Report) {
                 .prop_map(|(items, script, driver, via_auto, param)| {
                     let bytes = gen::render(&items);
                     // the write! drivers need text; never let a generator slip become an alarm
-                    let driver = if matches!(driver, Driver::Fmt | Driver::FmtLiteral | Driver::FmtFailing | Driver::FmtSloppy) && std::str::from_utf8(&bytes).is_err() { Driver::WriteAll } else { driver };
+                    let driver = if matches!(driver, Driver::Fmt | Driver::FmtChars | Driver::FmtLiteral | Driver::FmtFailing | Driver::FmtSloppy) && std::str::from_utf8(&bytes).is_err() { Driver::WriteAll } else { driver };
                     (bytes.clone(), Hist { hex: rt::hex(&bytes), script, driver, via_auto, param, repr: (param % 3) as u8 })
                 })
         }
@@ -495,7 +512,7 @@ fn run(args: &Args, rep: &mut Report) {
                 any::<u16>(),
                 proptest::collection::vec(fault::resp_strategy(), 0..6),
                 if utf8 {
-                    prop_oneof![Just(Driver::Fmt), Just(Driver::FmtLiteral), Just(Driver::Write), Just(Driver::WriteAll)].boxed()
+                    prop_oneof![Just(Driver::Fmt), Just(Driver::FmtChars), Just(Driver::FmtLiteral), Just(Driver::Write), Just(Driver::WriteAll)].boxed()
                 } else {
                     prop_oneof![Just(Driver::Write), Just(Driver::Vectored), Just(Driver::WriteAll)].boxed()
                 },
@@ -505,7 +522,7 @@ fn run(args: &Args, rep: &mut Report) {
                 .prop_map(|(mut items, big, frac, script, driver, via_auto, param)| {
                     gen::insert_huge(&mut items, big, frac);
                     let bytes = gen::render(&items);
-                    let driver = if matches!(driver, Driver::Fmt | Driver::FmtLiteral) && std::str::from_utf8(&bytes).is_err() { Driver::WriteAll } else { driver };
+                    let driver = if matches!(driver, Driver::Fmt | Driver::FmtChars | Driver::FmtLiteral) && std::str::from_utf8(&bytes).is_err() { Driver::WriteAll } else { driver };
                     // write_all in chunks: whole, or 64 KiB pieces (param 1 would mean single bytes: too slow here)
                     let param = if driver == Driver::WriteAll && param != 65_536 { 0 } else { param };
                     // write_vectored hands over its first non-empty buffer only: keep that one large
